@@ -12,7 +12,7 @@ CHECKS = {
  "C02": ("exploration", "lsv", "model-based stateful PBT, sharing-heavy generator; invariant: non-target handles keep raw bytes, pointer, length, text",
          "Every step compares all handles that are not the operation's target before/after (raw 16 bytes, pointer, length, text vs model), in histories where buffers are shared, truncated while shared and later written in place.", "DESIGN.md §6 C02"),
  "C03": ("exploration", "lsv", "model-based stateful PBT with a shadow heap (guard zones, quarantine, always-moving realloc) and a refcount-equals-live-handles invariant after every step",
-         "The crate's own allocator calls go through a shadow heap: exact layout on free, no double free, no access outside live blocks (access notes), refcount == live handles per buffer after every step, no orphan block, empty heap at the end; incl. failing and panicking operations.", "DESIGN.md §6 C03"),
+         "The crate's own allocator calls go through a shadow heap: exact layout on free, no double free, no access outside live blocks (access notes), refcount == live handles per buffer after every step, no orphan block, empty heap at the end; incl. failing and panicking operations and a simulated second thread at the crate's allocator calls; run with engines built with and without debug assertions.", "DESIGN.md §6 C03"),
  "C04": ("exploration", "lsv-loom", "proptest-generated concurrent programs, each explored by loom over all schedules up to a preemption bound; buffer accesses mapped to loom cells through the hooks; per-thread sequential String model",
          "Small concurrent programs over one shared heap buffer are generated and shrunk by proptest; for each, loom enumerates schedules and visibility orders. Oracles in every execution: each thread's handles read what its own operations produce; no buffer access (reads, write windows, realloc, free) unordered with a conflicting one; every buffer released exactly once. Bounded by loom's preemption bound and memory-model subset.", "DESIGN.md §5.4, §6 C04"),
  "C05": ("fault_enumeration", "lsv", "fault injection enumerated over every allocator request of proptest-generated histories (singles; pairs in thorough)",
